@@ -15,6 +15,7 @@ import json
 import os
 import struct
 
+from tools.checks import c02_oldstyle
 from tools.tr import tr_wire
 from tools.vlib import coqrun, wire
 from tools.vlib.coqrun import zl
@@ -112,12 +113,18 @@ def run(ctx):
         ctx.broke("translator tr_wire aborted", repr(e))
         text = None
     ctx.proofs() if text is not None else None
+    # extension: class-specific glue of the old-style payload classes (translated; theorems in props/C02x.v)
+    otext = c02_oldstyle.translate(ctx) if text is not None else None
+    if otext is not None:
+        ctx.proofs(part="C02x")
     ctx.coverage["trusted_base"] = [
         "Coq 8.16.1 kernel (coqc, vm_compute); no axioms (Print Assumptions: closed)",
         "tools/tr/tr_wire.py: introspection of live packer objects and Serializable subclasses into Gallina tables",
         "hand model coq/model/M02_wire.v of serialization.py / Flags / NodePacker, tied by this run's correspondence",
         "CPython struct/array/socket.inet_* implement big-endian (array: little-endian) packing as modelled",
         "str <-> UTF-8 bijection of CPython (strings are represented by their encodings)",
+        "tools/tr/tr_oldstyle.py: AST translation of __init__/to_pack_list/from_unpack_list of the old-style classes "
+        "(fail closed); CPython struct / bytes.join / slicing / range as modelled in coq/model/M02_oldstyle.v",
     ]
     ctx.assumptions = ["legal values only: canonical address strings, single-representable floats for 'f', no NaN",
                        "public-key validity answered by the real key vault per case"]
@@ -304,10 +311,14 @@ def run(ctx):
                 ctx.broke("correspondence (%s): model and implementation differ" % label, json.dumps(cases[i][2], default=str)[:1500])
             ctx.coverage["traces_validated_against_impl"] += len(cases) - len(mism)
             ctx.extra["cases_" + label] = len(cases)
+    # ---- old-style glue: corpus replay, correspondence with the translated functions, class-level oracle
+    c02_oldstyle.stage(ctx, reg, keys, text=otext)
     ctx.coverage["rule"] = ("every registry entry x generated legal values (boundary integers, empty/maximal byte strings, IPv4/IPv6/"
                             "domain addresses, all-bit patterns) packed and unpacked at random offsets between random bytes; every "
                             "shipped Serializable class x generated instances, plain, nested and listed; non-trivial = non-empty encoding; "
-                            "distinct by (format or class, value/bytes)")
+                            "distinct by (format or class, value/bytes); every shipped old-style class x generated constructor "
+                            "arguments: constructor, to_pack_list, from_unpack_list, encode/decode at offsets against the "
+                            "translated Gallina functions")
 
 
 def _repack_value(d, got, gen_class):
@@ -371,7 +382,9 @@ def replay(path):
     for v in js.get("violations", []):
         c = v["case"]
         print(v["key"], "::", v["what"])
-        if c.get("kind") == "class":
+        if c.get("kind") == "oldstyle":
+            rc |= c02_oldstyle.replay_case(c, ser)
+        elif c.get("kind") == "class":
             mod, _, name = c["cls"].rpartition(".")
             cls = getattr(importlib.import_module(mod), name)
             data = bytes.fromhex(c["data"])
